@@ -12,6 +12,7 @@ package p
 // production store.Collect with sends, flushes and a close.
 
 import (
+	"sync/atomic"
 	"crypto/sha256"
 	"encoding/hex"
 	"errors"
@@ -282,28 +283,44 @@ func (r *lrun) allAnswered() bool {
 	return true
 }
 
+// stuckExit is set when a run's result is complete but its bubble cannot end
+// because the production loop spins for ever (a livelock is a C12 violation the
+// run has already recorded); the worker then reports the result and leaves the process.
+var stuckExit bool
+
 func runLoopPlan(t *testing.T, plan *k.Plan, rng *rand.Rand, verbose bool) *k.RunResult {
-	var res *k.RunResult
-	defer func() {
-		// coroutines refused by a full scheduler queue leave their goroutine parked for
-		// good; the bubble reports them when it ends
-		if p := recover(); p != nil && (res == nil || !strings.Contains(fmt.Sprint(p), "blocked goroutines remain")) {
-			panic(p)
-		}
+	var resP atomic.Pointer[k.RunResult]
+	finished := make(chan any, 1)
+	go func() {
+		defer func() { finished <- recover() }()
+		runLoopBubble(t, plan, rng, verbose, &resP)
 	}()
-	res = runLoopBubble(t, plan, rng, verbose)
-	return res
+	var since time.Time
+	for {
+		select {
+		case p := <-finished:
+			res := resP.Load()
+			// coroutines refused by a full scheduler queue leave their goroutine parked for
+			// good; the bubble reports them when it ends
+			if p != nil && (res == nil || !strings.Contains(fmt.Sprint(p), "blocked goroutines remain")) {
+				panic(p)
+			}
+			return res
+		case <-time.After(20 * time.Millisecond):
+		}
+		if res := resP.Load(); res != nil {
+			if since.IsZero() {
+				since = time.Now()
+			} else if time.Since(since) > 3*time.Second {
+				stuckExit = true
+				return res
+			}
+		}
+	}
 }
 
-func runLoopBubble(t *testing.T, plan *k.Plan, rng *rand.Rand, verbose bool) (res *k.RunResult) {
-	defer func() {
-		if p := recover(); p != nil {
-			if res != nil && strings.Contains(fmt.Sprint(p), "blocked goroutines remain") {
-				return
-			}
-			panic(p)
-		}
-	}()
+func runLoopBubble(t *testing.T, plan *k.Plan, rng *rand.Rand, verbose bool, resP *atomic.Pointer[k.RunResult]) {
+	var res *k.RunResult
 	synctest.Test(t, func(t *testing.T) {
 		cfg := lDecode(plan.Config)
 		m := metrics.New(prometheus.NewRegistry())
@@ -352,7 +369,8 @@ func runLoopBubble(t *testing.T, plan *k.Plan, rng *rand.Rand, verbose bool) (re
 		// part two: store.Collect
 		r.collectPart(plan, rng)
 		// let helper goroutines that are still blocked on a full completion queue go
-		for i := 0; i < 1000; i++ {
+		// (only when the loop is gone: taking completions from a live kernel would strand its coroutines)
+		for i := 0; i < 1000 && r.returned; i++ {
 			if len(io.DequeueCQE(1000)) == 0 {
 				break
 			}
@@ -366,8 +384,8 @@ func runLoopBubble(t *testing.T, plan *k.Plan, rng *rand.Rand, verbose bool) (re
 		res.Sig = hex.EncodeToString(sg[:8])
 		res.Nontrivial = r.probes[fmt.Sprintf("status.%d", t_api.StatusAPISubmissionQueueFull)]+r.probes[fmt.Sprintf("status.%d", t_api.StatusSchedulerQueueFull)]+r.probes[fmt.Sprintf("status.%d", t_api.StatusAIOEchoError)]+r.probes[fmt.Sprintf("status.%d", t_api.StatusSystemShuttingDown)] > 1
 		res.States = []string{fmt.Sprintf("reqs=%d", len(r.reqs))}
+		resP.Store(res)
 	})
-	return res
 }
 
 // collectPart drives the production store.Collect: items sent one at a time,
